@@ -1104,6 +1104,7 @@ static std::string table_mutation(TState& w, e::engine_schema schema, size_t m, 
             size_t at = s.below(sv.size() + 1);
             int64_t next = at < sv.size() ? sv[at] : 0;
             desc += "(parent " + std::to_string(parent) + ", before " + std::to_string(next) + ")";
+            vfshim::CallScope in_library_call;
             pt.add(v2::playlist_row{0, "N" + std::to_string(s.below(1000)), parent, true, next, g_time(s), s.coin()});
         }
         else if (name == "playlist.update" || name == "playlist.move")
@@ -1146,6 +1147,7 @@ static std::string table_mutation(TState& w, e::engine_schema schema, size_t m, 
             p.title = "U" + std::to_string(s.below(1000));
             p.last_edit_time = g_time(s);
             p.is_explicitly_exported = !p.is_explicitly_exported;
+vfshim::CallScope in_library_call;
             pt.update(p);
         }
         else if (name == "playlist.remove")
@@ -1161,6 +1163,7 @@ static std::string table_mutation(TState& w, e::engine_schema schema, size_t m, 
             if (!pt.exists(id))
                 return desc + "(no such list any more)";
             desc += "(" + std::to_string(id) + ", " + std::to_string(pt.descendant_ids(id).size()) + " descendants)";
+vfshim::CallScope in_library_call;
             pt.remove(id);
         }
         else if (name == "entity.add_back")
@@ -1177,6 +1180,7 @@ static std::string table_mutation(TState& w, e::engine_schema schema, size_t m, 
             if (et.get(l, tr))
                 return desc + "(no free pair)";
             desc += "(" + std::to_string(l) + "," + std::to_string(tr) + ")";
+vfshim::CallScope in_library_call;
             et.add_back(v2::playlist_entity_row{0, l, tr, w.uuid, 0, static_cast<int64_t>(s.below(3))});
         }
         else if (name == "entity.remove" || name == "entity.clear")
@@ -1192,11 +1196,13 @@ static std::string table_mutation(TState& w, e::engine_schema schema, size_t m, 
             {
                 int64_t x = tr[s.below(tr.size())];
                 desc += "(" + std::to_string(l) + "," + std::to_string(x) + " of " + std::to_string(tr.size()) + ")";
+vfshim::CallScope in_library_call;
                 et.remove(l, x);
             }
             else
             {
                 desc += "(" + std::to_string(l) + ", " + std::to_string(tr.size()) + " entries)";
+vfshim::CallScope in_library_call;
                 et.clear(l);
             }
         }
@@ -1204,6 +1210,7 @@ static std::string table_mutation(TState& w, e::engine_schema schema, size_t m, 
         {
             auto row = gen_row(s, ctx, d, 99);
             desc += "(" + row.path.substr(0, 30) + ")";
+vfshim::CallScope in_library_call;
             t.add(row);
         }
         else if (name == "track.update")
@@ -1214,6 +1221,7 @@ static std::string table_mutation(TState& w, e::engine_schema schema, size_t m, 
             auto row = gen_row(s, ctx, d, 98);
             row.id = id;
             desc += "(" + std::to_string(id) + ")";
+vfshim::CallScope in_library_call;
             t.update(row);
         }
         else if (name == "track.remove")
@@ -1222,6 +1230,7 @@ static std::string table_mutation(TState& w, e::engine_schema schema, size_t m, 
             if (!t.exists(id))
                 return desc + "(no such track any more)";
             desc += "(" + std::to_string(id) + ")";
+vfshim::CallScope in_library_call;
             t.remove(id);
         }
         else if (name == "track.set_column")
@@ -1236,6 +1245,7 @@ static std::string table_mutation(TState& w, e::engine_schema schema, size_t m, 
             const Col* col = cols[s.below(cols.size())];
             auto row = gen_row(s, ctx, d, 97);
             desc += "(" + std::to_string(id) + ", " + col->name + ")";
+vfshim::CallScope in_library_call;
             col->set(t, id, row);
         }
         else if (name == "change_log.add")
@@ -1244,12 +1254,14 @@ static std::string table_mutation(TState& w, e::engine_schema schema, size_t m, 
                 return desc + "(no change log in this schema)";
             int tr = static_cast<int>(s.below(1000));
             desc += "(" + std::to_string(tr) + ")";
+vfshim::CallScope in_library_call;
             w.lib.change_log().add(tr);
         }
         else
         {
             int64_t v = static_cast<int64_t>(s.raw());
             desc += "(" + std::to_string(v) + ")";
+vfshim::CallScope in_library_call;
             w.lib.information().update_current_played_indicator(v);
         }
     }
@@ -1288,13 +1300,14 @@ static void prop_c14_table(const vf::Case& c, Ctx& ctx)
     const vf::Record& oprec = c.size() > 4 ? c[4] : vf::S::empty();
     auto& sh = vfshim::state();
     vfshim::disarm();
-    uint64_t W = 0;
+    uint64_t W = 0, R = 0;
     {
         auto w = build_tstate(schema, c, ctx);
         bool threw = false;
         vfshim::reset_counters();
         std::string desc = table_mutation(*w, schema, m, S(oprec), ctx, threw);
         W = sh.fault_points;
+        R = sh.read_points;
         ctx.describe = "schema " + e::to_string(schema) + " " + w->hist + " || " + desc + " [W=" + std::to_string(W) + "]";
         ctx.key = ctx.describe;
         if (threw || desc.find("(no") != std::string::npos)
@@ -1338,6 +1351,29 @@ static void prop_c14_table(const vf::Case& c, Ctx& ctx)
             ctx.label("retry-has-effect");
         if (k >= 2)
             ctx.label("k>=2");
+    }
+    // second fault class: every step of the statements the call only reads with (counted while inside the library call)
+    for (uint64_t k = 1; k <= R && k <= 40; ++k)
+    {
+        auto w = build_tstate(schema, c, ctx);
+        std::vector<int64_t> probe = w->tids;
+        std::string before = observe_tables(w->lib, schema, probe, false, 1000000);
+        bool threw = false;
+        vfshim::arm(k, true);
+        table_mutation(*w, schema, m, S(oprec), ctx, threw);
+        bool fired = sh.fired;
+        vfshim::disarm();
+        std::string where = "2.x table API " + mname + " leaves a partial update or an unusable library: " + ctx.describe + " fault at READ statement " + std::to_string(k) + "/" + std::to_string(R);
+        VF_CHECK(fired, where << ": the fault position was not reached (operation is not deterministic?)");
+        VF_CHECK(threw, where << ": the call did not report the failed statement");
+        sqlite3* conn = sh.last_db;
+        std::string after = observe_tables(w->lib, schema, probe, false, 1000000);
+        VF_CHECK(before == after, where << ": observable state changed although the call failed: " << first_diff(before, after));
+        VF_CHECK(!conn || sqlite3_get_autocommit(conn) != 0, where << ": a transaction was left open");
+        bool threw2 = false;
+        std::string d3 = table_mutation(*w, schema, m, S(oprec), ctx, threw2);
+        VF_CHECK(!threw2, where << ": after the failed call the same operation no longer succeeds: " << d3);
+        ctx.label("read-fault");
     }
 }
 
